@@ -2,7 +2,7 @@
     list-encoded operands.  Evaluated inside Coq (vm_compute) and, for volume,
     through extraction (Extract.v). *)
 From Coq Require Import ZArith List.
-From FastorV Require Import Base.Scalar Base.Mem Model.Cfg Model.Matmul Model.TMatmul Model.Expr Model.ExprInt Model.Reduce Base.Shape Model.Views Model.RandomViews Model.Layout.
+From FastorV Require Import Base.Scalar Base.Mem Model.Cfg Model.Matmul Model.TMatmul Model.Expr Model.ExprInt Model.Reduce Base.Shape Model.Views Model.RandomViews Model.Layout Model.Permute.
 Import ListNotations.
 
 Definition run_matmul_Z (c : cfg) (t : ety) (M K N : nat) (a b : list Z) : list Z :=
@@ -64,3 +64,10 @@ Definition run_idx_range_it (ncols : nat) (d : nat) (r : Z * Z * Z) (it1 : list 
 (** C20: layout conversions on list-encoded data (values are positions) *)
 Definition run_torowmajor (dims : list nat) : list nat := map (torowmajor dims (fun p => p)) (seq 0 (prod dims)).
 Definition run_tocolumnmajor (dims : list nat) : list nat := map (tocolumnmajor dims (fun p => p)) (seq 0 (prod dims)).
+
+(** C14 *)
+Definition run_permute (cxx17 : bool) (p dims : list nat) : list nat * list nat :=
+  (gatherp p dims, map ((if cxx17 then permute17 else permute14) p dims (fun q => q)) (seq 0 (prod dims))).
+Definition run_transpose (V M N : nat) : list Z :=
+  map (transpose_tiled (S:=ZS) V M N (fun q => Z.of_nat q) (fun _ => 77777%Z)) (seq 0 (M * N + 2)).
+Definition run_invp := invp.
